@@ -160,6 +160,9 @@ func runVdrProperty(c *Ctx, prop string) {
 	r := c.Res
 	r.Rule = "a completed pipestance under VDR in which a volatile stage wrote files and VDR removed at least one entry; distinct by (mode, set of stage-written files with their fate)"
 	vdrPureChecks(c, prop)
+	if prop == "C04" {
+		vdrFsChecks(c)
+	}
 	modes := []string{"rolling", "strict", "post"}
 	var specs []*VdrSpec
 	mk := func(name, src, mode string, seed int64) *VdrSpec {
@@ -285,6 +288,10 @@ func runVdrProperty(c *Ctx, prop string) {
 	}
 	for k, v := range stats {
 		r.Histogram["gen-"+k] = v
+	}
+	// ---- Tier B: real processes, real goroutine timing
+	if os.Getenv("VDR_NO_TIERB") == "" {
+		vdrTierB(c, prop)
 	}
 	// ---- model correspondence
 	if len(checks) > 0 && c.Drv != nil {
